@@ -21,10 +21,17 @@ type limitsPoint struct {
 	R string `json:"r"` // exact float64 (hex)
 }
 type limitsOp struct {
-	Op    string     `json:"op"`             // attach | attach_nil | min | start | max
+	// attach (a fresh map object holding Data) | attach_nil | attach_obj (map object #Obj AGAIN, with whatever it
+	// holds by now) | attach_own (fan.AttachFanRpmCurveData(fan.GetFanRpmCurveData())) | update (fan.
+	// UpdateFanRpmCurveValue(V, R)) | mutate (the caller writes / deletes key V of map object #Obj after it
+	// was handed over) | min | start | max.  Map objects are numbered by the attach / attach_nil ops in order.
+	Op    string        `json:"op"`
 	Data  []limitsPoint `json:"data,omitempty"` // key-sorted, distinct keys
-	V     int        `json:"v,omitempty"`
-	Force bool       `json:"force,omitempty"`
+	V     int           `json:"v,omitempty"`
+	Force bool          `json:"force,omitempty"`
+	Obj   int           `json:"obj,omitempty"`
+	R     string        `json:"r,omitempty"` // update / mutate: exact float64 (hex)
+	Del   bool          `json:"del,omitempty"`
 }
 type limitsIn struct {
 	Fan       string  `json:"fan"` // hwmon | file | cmd
@@ -35,8 +42,10 @@ type limitsIn struct {
 	Ops       []limitsOp `json:"ops"`
 }
 type limitsStep struct {
-	Err int    `json:"err"` // 0 nil, 1 os.ErrInvalid, 2 other error, 3 panic
-	Lim [3]int `json:"lim"` // min, start, max
+	Err  int    `json:"err"` // 0 nil, 1 os.ErrInvalid, 2 other error, 3 panic
+	Lim  [3]int `json:"lim"` // min, start, max
+	N    int    `json:"n"`   // number of points the fan holds afterwards (-1: no data)
+	Given int   `json:"given,omitempty"` // attach-like calls: number of points in the map at call time
 }
 type limitsObs struct {
 	Init  [3]int    `json:"init"`
@@ -76,31 +85,73 @@ func limitsRun(in limitsIn) (limitsObs, string) {
 	var obs limitsObs
 	obs.Init = limitsGetters(fan)
 	ops := make([]string, 0, len(in.Ops))
+	var objs []*map[int]float64 // the caller's map objects, one per attach / attach_nil op
+	errCode := func(e error, p string) int {
+		switch {
+		case p != "":
+			return 3
+		case e == nil:
+			return 0
+		case errors.Is(e, os.ErrInvalid):
+			return 1
+		}
+		return 2
+	}
+	// doAttach hands mp to the fan; the Coq case carries the content of the map AT CALL TIME
+	doAttach := func(mp *map[int]float64, st *limitsStep) {
+		snap := map[int]float64{}
+		if mp != nil {
+			for k, v := range *mp {
+				snap[k] = v
+			}
+		}
+		st.Given = len(snap)
+		ops = append(ops, "(Attach "+cFPairs(snap)+")")
+		var e error
+		p := catch(func() { e = fan.AttachFanRpmCurveData(mp) })
+		st.Err = errCode(e, p)
+	}
 	for _, o := range in.Ops {
 		st := limitsStep{}
+		silent := false // a harness action that is not a call on the fan: no step in the Coq case
 		switch o.Op {
 		case "attach", "attach_nil":
-			var mp *map[int]float64
-			pts := make([]string, 0, len(o.Data))
+			m := map[int]float64{}
+			for _, p := range o.Data {
+				m[p.K] = pF(p.R)
+			}
+			objs = append(objs, &m)
 			if o.Op == "attach" {
-				m := map[int]float64{}
-				for _, p := range o.Data {
-					m[p.K] = pF(p.R)
-					pts = append(pts, "("+cZ(p.K)+", "+cF(pF(p.R))+")")
-				}
-				mp = &m
+				doAttach(&m, &st)
+			} else {
+				doAttach(nil, &st)
 			}
-			ops = append(ops, "(Attach "+cList(pts)+")")
-			var e error
-			if p := catch(func() { e = fan.AttachFanRpmCurveData(mp) }); p != "" {
+		case "attach_obj":
+			if o.Obj < 0 || o.Obj >= len(objs) {
+				panic("attach_obj: no such map object")
+			}
+			doAttach(objs[o.Obj], &st)
+		case "attach_own":
+			var own *map[int]float64
+			if p := catch(func() { own = fan.GetFanRpmCurveData() }); p != "" {
+				own = nil
+			}
+			doAttach(own, &st)
+		case "update":
+			ops = append(ops, cRec("UpdateCurve", cZ(o.V), cF(pF(o.R))))
+			if p := catch(func() { fan.UpdateFanRpmCurveValue(o.V, pF(o.R)) }); p != "" {
 				st.Err = 3
-			} else if e != nil {
-				if errors.Is(e, os.ErrInvalid) {
-					st.Err = 1
-				} else {
-					st.Err = 2
-				}
 			}
+		case "mutate":
+			if o.Obj < 0 || o.Obj >= len(objs) {
+				panic("mutate: no such map object")
+			}
+			if o.Del {
+				delete(*objs[o.Obj], o.V)
+			} else {
+				(*objs[o.Obj])[o.V] = pF(o.R)
+			}
+			silent = true
 		case "min":
 			ops = append(ops, cRec("SetMin", cZ(o.V), cBool(o.Force)))
 			if p := catch(func() { fan.SetMinPwm(o.V, o.Force) }); p != "" {
@@ -119,7 +170,16 @@ func limitsRun(in limitsIn) (limitsObs, string) {
 		default:
 			panic("unknown op " + o.Op)
 		}
+		if silent {
+			continue
+		}
 		st.Lim = limitsGetters(fan)
+		st.N = -1
+		_ = catch(func() {
+			if d := fan.GetFanRpmCurveData(); d != nil {
+				st.N = len(*d)
+			}
+		})
 		obs.Steps = append(obs.Steps, st)
 	}
 	lim := func(l [3]int) string { return "(" + cZ(l[0]) + ", " + cZ(l[1]) + ", " + cZ(l[2]) + ")" }
@@ -285,7 +345,7 @@ func limitsIsNonTrivial(in limitsIn) bool {
 		return false
 	}
 	for _, o := range in.Ops {
-		if o.Op == "attach" && len(o.Data) > 0 {
+		if (o.Op == "attach" && len(o.Data) > 0) || o.Op == "attach_own" || o.Op == "attach_obj" {
 			return true
 		}
 	}
@@ -299,7 +359,7 @@ func init() {
 			na := 0
 			forced := false
 			for _, o := range in.Ops {
-				if o.Op == "attach" || o.Op == "attach_nil" {
+				if o.Op == "attach" || o.Op == "attach_nil" || o.Op == "attach_obj" || o.Op == "attach_own" {
 					na++
 				} else if o.Force {
 					forced = true
@@ -370,6 +430,80 @@ func init() {
 			}
 		}
 
+		// (a2) aliasing: the map handed to AttachFanRpmCurveData is the fan's OWN current map, the same
+		// object as before, or an object the caller (or UpdateFanRpmCurveValue) changed in the meantime
+		upd := func() limitsOp {
+			return limitsOp{Op: "update", V: rng.Pick([]int{0, 3, 77, 128, 254, 255, rng.Range(0, 255)}),
+				R: jF(limitsPickF(rng, []float64{0, 0.4, 1, 650, 1800, 5000, float64(rng.Range(1, 3000))}))}
+		}
+		for combo := 0; combo < 8; combo++ {
+			for ns := 0; ns < 2; ns++ {
+				for pat := 0; pat < 9; pat++ {
+					in := limitsIn{Fan: "hwmon", NeverStop: ns == 1}
+					if combo&1 != 0 {
+						in.Min = ip(rng.Pick([]int{0, 20, 30, 255}))
+					}
+					if combo&2 != 0 {
+						in.Start = ip(rng.Pick([]int{0, 40, 254, 255}))
+					}
+					if combo&4 != 0 {
+						in.Max = ip(rng.Pick([]int{0, 200, 255}))
+					}
+					famA := rng.Pick([]int{0, 1, 2, 3, 6, 8, 11}) // families with something spinning, mostly
+					famB := rng.Intn(len(limitsFamilies))
+					a := attachOp(limitsFamilies[famA])
+					tag := ""
+					switch pat {
+					case 0:
+						tag = "own-after-updates"
+						in.Ops = append(in.Ops, a)
+						for j := rng.Intn(4); j > 0; j-- {
+							in.Ops = append(in.Ops, upd())
+						}
+						in.Ops = append(in.Ops, limitsOp{Op: "attach_own"})
+					case 1:
+						tag = "same-object-twice"
+						in.Ops = append(in.Ops, a, limitsOp{Op: "attach_obj", Obj: 0})
+					case 2:
+						tag = "caller-mutates-then-reattach"
+						in.Ops = append(in.Ops, a)
+						for j := rng.Range(1, 4); j > 0; j-- {
+							in.Ops = append(in.Ops, limitsOp{Op: "mutate", Obj: 0, V: rng.Range(0, 255),
+								R: jF(float64(rng.Range(0, 1) * rng.Range(1, 4000))), Del: rng.Chance(1, 4)})
+						}
+						in.Ops = append(in.Ops, limitsOp{Op: "attach_obj", Obj: 0})
+					case 3:
+						tag = "older-object-then-own"
+						in.Ops = append(in.Ops, a, attachOp(limitsFamilies[famB]), upd(), limitsOp{Op: "attach_obj", Obj: 0}, limitsOp{Op: "attach_own"})
+					case 4:
+						tag = "own-without-attach"
+						in.Ops = append(in.Ops, upd(), limitsOp{Op: "attach_own"}, upd(), limitsOp{Op: "attach_own"})
+					case 5:
+						tag = "own-nil"
+						in.Ops = append(in.Ops, limitsOp{Op: "attach_own"}, a, limitsOp{Op: "attach_own"})
+					case 6:
+						tag = "caller-empties-then-own"
+						in.Ops = append(in.Ops, a)
+						for _, p := range a.Data {
+							in.Ops = append(in.Ops, limitsOp{Op: "mutate", Obj: 0, V: p.K, Del: true})
+						}
+						in.Ops = append(in.Ops, limitsOp{Op: "attach_own"}, upd(), limitsOp{Op: "attach_own"})
+					case 7:
+						tag = "own-twice"
+						in.Ops = append(in.Ops, a, upd(), limitsOp{Op: "attach_own"}, upd(), upd(), limitsOp{Op: "attach_own"})
+					case 8:
+						tag = "own-then-other"
+						in.Ops = append(in.Ops, a, limitsOp{Op: "attach_own"}, attachOp(limitsFamilies[famB]), limitsOp{Op: "attach_own"})
+					}
+					emit(in, "aliasing", tag)
+				}
+			}
+		}
+		// file / cmd fans hand out a shared map: attaching it is a no-op
+		for _, k := range []string{"file", "cmd"} {
+			emit(limitsIn{Fan: k, NeverStop: rng.Bool(), Ops: []limitsOp{upd(), {Op: "attach_own"}, attachOp("ramp"), {Op: "attach_own"}}}, "aliasing", "own-other-kind")
+		}
+
 		// (b) random op sequences on all three fan kinds
 		n := ctx.Param("n", 900)
 		for i := 0; i < n; i++ {
@@ -417,6 +551,27 @@ func init() {
 				}
 				for j := rng.Intn(3); j > 0; j-- {
 					in.Ops = append(in.Ops, setter())
+				}
+				// the data the fan carries keeps changing (RPM monitor), callers keep and reuse their maps
+				if rng.Chance(1, 3) {
+					for j := rng.Range(1, 3); j > 0; j-- {
+						switch rng.Intn(5) {
+						case 0, 1:
+							in.Ops = append(in.Ops, limitsOp{Op: "update", V: rng.Pick([]int{0, 1, 128, 254, 255, rng.Range(0, 255)}),
+								R: jF(limitsPickF(rng, []float64{0, 0.9, 1, 700, 1500, 9999, float64(rng.Range(0, 3000))}))})
+							tags = append(tags, "update-curve")
+						case 2:
+							in.Ops = append(in.Ops, limitsOp{Op: "mutate", Obj: rng.Intn(a + 1), V: rng.Range(0, 255),
+								R: jF(float64(rng.Range(0, 1)*rng.Range(1, 4000))), Del: rng.Chance(1, 3)})
+							tags = append(tags, "caller-mutates")
+						case 3:
+							in.Ops = append(in.Ops, limitsOp{Op: "attach_obj", Obj: rng.Intn(a + 1)})
+							tags = append(tags, "same-object-again")
+						case 4:
+							in.Ops = append(in.Ops, limitsOp{Op: "attach_own"})
+							tags = append(tags, "attach-own")
+						}
+					}
 				}
 			}
 			emit(in, append(tags, "random")...)
